@@ -432,7 +432,7 @@ S_MOD, S_CFG = os.path.join(SPEC, "InvokeStatic.tla"), os.path.join(SPEC, "Invok
 
 def static_case_text(c):
     return (f"{c['env']} f/{c['fconv']}({','.join(c['fargs'])}) calls g/{c['cconv']}({','.join(c['cargs'])}) with operands "
-            f"{['imm' if x == 0 else 'arg%d' % x for x in c['map']]} fp={c['fp']}")
+            f"{['imm' if x == 0 else 'arg%d' % x for x in c['map']]} fp={c['fp']}" + (f" live-local={c['live']}B" if c.get("live") else ""))
 
 
 def static_key(d, case=None):
@@ -450,6 +450,10 @@ def part_c(ctx):
     q = ctx.quick
     bdir = ctx.build("asan", "compfront")
     cases = x06gen.gen_static(ctx.seed, 700 if q else 16000)
+    for c in cases:
+        c.setdefault("live", 0)
+    # by-reference vector arguments (Win64 / vectorcall), with a live local of the caller
+    cases += x06gen.gen_static_byref(len(cases) + 1000001, not q)
     cp, op = ctx.path("static_cases.ndjson"), ctx.path("static_obs.ndjson")
     vlib.write_ndjson(cp, cases)
     rc, _, err = vlib.run_harness(ctx, bdir, "compfront", ["static", cp, op], timeout=300 if q else 1500)
